@@ -349,8 +349,8 @@ def c01():
     ]
     obs.append(ob("c01::block_coinbase_sum", "qt", 5, "Block::verify_coinbase == Ok <=> sum(coinbase outputs) - (REWARD + fees) == sum(coinbase kernels)",
                   "1 input / 2 outputs / 2 kernels with symbolic coinbase flags, commitments, fee < 2^40 and fee shift < 16", est=300, loops=L, replay="model", mem_est_gb=8))
-    obs.append(ob("c01::block_validate_sound", "x", 5, "[ATTEMPT, round 5] Block::validate == Ok on the smallest block (0 inputs / 1 output / 1 kernel, any features) => range proof and signature consulted and valid, outputs - REWARD == kernel excess with (header offset - previous offset) as offset, coinbase output - (REWARD + fees) == coinbase kernel",
-                  "symbolic model commitments, output / kernel features, fee < 2^40, oracle bits, header and previous offsets (outside the recorded sum_kernel_offsets finding)", est=1200, cap_s=3000, loops=L, replay="model", mem_est_gb=20))
+    obs.append(ob("c01::block_validate_sound", "t", 5, "Block::validate == Ok on the smallest block (0 inputs / 1 output / 1 kernel, any features) => range proof and signature consulted and valid, outputs - REWARD == kernel excess with (header offset - previous offset) as offset, coinbase output - (REWARD + fees) == coinbase kernel",
+                  "symbolic model commitments, output / kernel features, fee < 2^40, oracle bits, header and previous offsets (outside the recorded sum_kernel_offsets finding)", est=1600, cap_s=3600, loops=L, replay="model", mem_est_gb=30, mem_gb=44))
     obs.append(ob("c01::header_overage_arithmetic", "qt", 5, "BlockHeader::overage = -REWARD; total_overage = -(height [+1]) * REWARD; consensus::reward = REWARD + fees (saturating); REWARD = 60 grin",
                   "height < 2^27 (the i64 product overflows near 1.5e8 blocks), any fee", est=30, loops=L))
     for (np_, nn, tiers) in [(1, 1, "qt"), (2, 0, "qt"), (2, 1, "t"), (1, 2, "t"), (2, 2, "t")]:
